@@ -39,7 +39,7 @@ func (f faultPlan) String() string {
 func c04Plans(tier string) []faultPlan {
 	trees, fan := 1, 60
 	if tier == "thorough" {
-		trees, fan = 12, 700
+		trees, fan = 40, 2000
 	}
 	var out []faultPlan
 	for t := 0; t < trees; t++ {
